@@ -41,6 +41,17 @@ def run(ctx):
             base, spread = rng.choice([(10 ** 9, 10 ** 9), (3 * 10 ** 9, 10 ** 9), (10 ** 7, 10 ** 7), (10 ** 12, 10 ** 11)])
             lo, hi = min(xs), max(xs)
             xs = [float(int(base + spread * (x - lo) / (hi - lo))) for x in xs]
+        if i % 8 == 5:
+            # plateaus: a setpoint / price / configured level that is repeated exactly until it changes, at values that are not
+            # binary fractions.  After a cut only identical values remain in the window and the variance ADWIN maintains by
+            # subtraction is a rounding residue of either sign; the rule still has to be applied to the window as it stands
+            p.update(conservative_bound=False, delta=rng.choice([0.002, 0.05, 0.5]), new_sample_thresh=rng.choice([1, 3, 32]))
+            levels = rng.choice([[1.1, 2.3], [5.3, 7.1], [0.1, 0.7, 1.9], [19.99, 24.49, 17.3], [1e-3, 3.3e-3]])
+            xs, k = [], rng.randrange(len(levels))
+            while len(xs) < ln:
+                xs += [levels[k % len(levels)]] * rng.randint(60, 160)
+                k += 1
+            xs = xs[:ln]
         script = [("update", x) for x in xs]
         for _ in range(rng.randint(0, 2)):
             script.insert(rng.randrange(len(script)), ("reset",))
